@@ -24,3 +24,54 @@ def exists_range(lo, hi, pred):
 def is_opaque(x):
     """True for objects that exist only through an interface contract (never for real instances)."""
     return type(x).__name__.startswith('Stub_')
+
+
+# ---- sequences of strings.  Natively plain Python; in proofs `prefix_join` is a measure of the list
+# (pyvc.texts: an uninterpreted prefix function with its defining equations instantiated where needed)
+# and `yielded` runs an interpreted generator to completion, collecting what it yields in the ghost
+# list `_yielded` (visible to the loop invariants of the generator function).
+
+def prefix_join(xs, i):
+    """xs[0] + ... + xs[i-1]"""
+    return ''.join(xs[:i])
+
+
+def join_of(xs):
+    return prefix_join(xs, len(xs))
+
+
+def yielded(g):
+    """everything the generator / iterator g yields (from its current position), as a list"""
+    return list(g)
+
+
+def is_find(i, s, sub):
+    """i == s.find(sub)   (in proofs: through the shared concatenation pieces of s)"""
+    return i == s.find(sub)
+
+
+class ListIter:
+    """A list iterator whose remaining items can be inspected without consuming them (the concrete
+    counterpart, in replays, of the engine's (sequence, position) cell for `Iterator[...]` parameters)."""
+
+    def __init__(self, items):
+        self.items = list(items)
+        self.pos = 0
+
+    def __iter__(self):
+        return self
+
+    def __next__(self):
+        if self.pos >= len(self.items):
+            raise StopIteration
+        self.pos += 1
+        return self.items[self.pos - 1]
+
+
+def peek(it):
+    """the items an iterator has left, without consuming them (spec level only)"""
+    if isinstance(it, ListIter):
+        return it.items[it.pos:]
+    if isinstance(it, (list, tuple)):
+        return list(it)
+    raise TypeError('peek: not a spec-level iterator: %r' % (it,))
